@@ -385,6 +385,9 @@ func parseDirective(c *Contract, line, path string, lineNo int, sp *Specs) error
 		case "ensures":
 			cl.Ord = len(c.Ensures) + 1
 			c.Ensures = append(c.Ensures, cl)
+			if strings.HasPrefix(cl.Label, "assumed-") {
+				sp.Assumes = append(sp.Assumes, "assumed postcondition of "+c.Key+" (used by callers, not proved on its body): "+cl.Text)
+			}
 		case "invariant":
 			if loop == 0 {
 				return fmt.Errorf("invariant needs 'loop N'")
